@@ -65,7 +65,8 @@
         let mut total = 0u64;
         for n in 1..=4usize {
             let combos = 5u64.pow(2 * n as u32);
-            let stride = if n == 4 { 97 } else { 1 };
+            let thorough = std::env::var("VERIF_TIER").map_or(false, |t| t == "thorough");
+            let stride = if n == 4 { if thorough { 7 } else { 97 } } else { 1 };
             let mut idx = 0u64;
             while idx < combos {
                 let mut choices = vec![[0u8; 2]; n];
